@@ -183,6 +183,14 @@ fn render(m: &Model) -> Invocation {
     }
     if let Entropy::Seeded(s) = m.entropy {
         inv = inv.env("GE_SEED", s.to_string());
+        // schedule perturbation for multi-threaded searches: vary which worker wins (the oracle is
+        // schedule-independent, so any interleaving must give a correct result)
+        if m.threads.map(|j| j >= 2).unwrap_or(true) {
+            let jitter = [0u32, 300, 3000][(s % 3) as usize];
+            if jitter > 0 {
+                inv = inv.env("GE_JITTER_US", jitter.to_string());
+            }
+        }
     }
     inv
 }
@@ -774,7 +782,7 @@ fn with_plain(cases: &[Case], every: usize) -> Vec<Case> {
 }
 
 pub fn run(ctx: &mut Ctx) {
-    ctx.rule = "Subject: the executable, `hdwallet new --vanity-prefix 0x<digits> [-n L] [-j N] [--vanity-password P] [--vanity-account-index I | --vanity-hd-path PATH]`, run under an LD_PRELOAD getentropy shim that delivers a seeded, logged byte stream. Generator: (single-digit) all 16 lower-case digits and the 6 upper-case letters x -j {0,1,2,16}, exhaustively; (search) stratified configurations of 1-2 digit prefixes in lower/upper/mixed case x -j {0,1,2} x selector {none, password, index, path, password+index, password+path} x -n {12,15,18,21,24,omitted}, each repeated with different shim seeds; (wide) 2- and 3-digit prefixes at -j 16 / -j omitted, run one at a time, repeated with different seeds so that a different worker wins; thorough adds runs on real OS entropy (logged and without any shim) and the plain release build; (refusal) 0x followed by 1-3 characters of which at least one is not a hex digit (fixed list incl. full-width and Arabic-Indic digits, neighbours of the hex ranges, generated ASCII/non-ASCII). Oracle (schedule-independent): exit 0 and exactly one stdout line that the reference BIP-39 decoder accepts with the requested word count; the reference chain entropy -> canonical phrase -> PBKDF2(phrase, 'mnemonic'+NFKD(password)) -> BIP-32 CKDpriv along m/44'/60'/0'/0/i or the given path -> secp256k1 k*G -> Keccak address must begin, in lower-case hex, with the lower-cased requested digits; with the shim the phrase's entropy must be one of the logged getentropy results. Non-hex prefix: error exit (255 or 2), empty stdout, no panic. For -j 0/1 the first matching block of the seeded stream is predicted and compared (recorded as a class, never reported: the property does not promise first-match). Non-trivial: prefix contains a letter digit, or has >= 2 digits, or a password/index/path is given, or >= 2 threads; distinct by the whole model (prefix, -n, -j, password, selector, entropy source/seed, build).".into();
+    ctx.rule = "Subject: the executable, `hdwallet new --vanity-prefix 0x<digits> [-n L] [-j N] [--vanity-password P] [--vanity-account-index I | --vanity-hd-path PATH]`, run under an LD_PRELOAD getentropy shim that delivers a seeded, logged byte stream. Generator: (single-digit) all 16 lower-case digits and the 6 upper-case letters x -j {0,1,2,16}, exhaustively; (search) stratified configurations of 1-2 digit prefixes in lower/upper/mixed case x -j {0,1,2} x selector {none, password, index, path, password+index, password+path} x -n {12,15,18,21,24,omitted}, each repeated with different shim seeds; (wide) 2- and 3-digit prefixes at -j 16 / -j omitted, run one at a time, repeated with different seeds so that a different worker wins; two thirds of the seeded multi-thread runs add schedule perturbation (GE_JITTER_US: the shim delays every entropy request by a pseudo-random time scaled by a per-thread slowness factor, so which worker finishes first varies); thorough adds runs on real OS entropy (logged and without any shim) and the plain release build; (refusal) 0x followed by 1-3 characters of which at least one is not a hex digit (fixed list incl. full-width and Arabic-Indic digits, neighbours of the hex ranges, generated ASCII/non-ASCII). Oracle (schedule-independent): exit 0 and exactly one stdout line that the reference BIP-39 decoder accepts with the requested word count; the reference chain entropy -> canonical phrase -> PBKDF2(phrase, 'mnemonic'+NFKD(password)) -> BIP-32 CKDpriv along m/44'/60'/0'/0/i or the given path -> secp256k1 k*G -> Keccak address must begin, in lower-case hex, with the lower-cased requested digits; with the shim the phrase's entropy must be one of the logged getentropy results. Non-hex prefix: error exit (255 or 2), empty stdout, no panic. For -j 0/1 the first matching block of the seeded stream is predicted and compared (recorded as a class, never reported: the property does not promise first-match). Non-trivial: prefix contains a letter digit, or has >= 2 digits, or a password/index/path is given, or >= 2 threads; distinct by the whole model (prefix, -n, -j, password, selector, entropy source/seed, build).".into();
     ctx.assumptions = vec![
         "prefixes without 0x and the empty prefix 0x are unspecified: run, counted, only checked for 'no panic'".into(),
         "a successful search is required for every hexadecimal prefix with a valid length and selector (an error exit is reported), since nothing in such an input can be refused".into(),
